@@ -30,10 +30,92 @@ impl<'p> Interp<'p> {
 		r
 	}
 
+	/// body of a function: a top-level `if c { ...; return a; }` on a symbolic c is evaluated as
+	/// `if c { a } else { rest of the body }` so that early returns merge instead of forking
+	pub fn eval_fn_body(&mut self, b: &syn::Block) -> R<V> {
+		self.push_scope();
+		let r = self.eval_stmts_ex(&b.stmts, true);
+		self.pop_scope();
+		r
+	}
+
 	fn eval_stmts(&mut self, stmts: &[syn::Stmt]) -> R<V> {
+		self.eval_stmts_ex(stmts, false)
+	}
+
+	fn then_block_returns(b: &syn::Block) -> bool {
+		match b.stmts.last() {
+			Some(syn::Stmt::Expr(syn::Expr::Return(_), _)) => true,
+			_ => false,
+		}
+	}
+
+	fn eval_stmts_ex(&mut self, stmts: &[syn::Stmt], fn_body: bool) -> R<V> {
 		let mut last = V::Unit;
 		for (i, s) in stmts.iter().enumerate() {
 			let is_last = i + 1 == stmts.len();
+			if fn_body && !is_last && self.merge_enabled && self.mode != Mode::Concrete {
+				if let syn::Stmt::Expr(syn::Expr::If(ifx), _) = s {
+					if ifx.else_branch.is_none() && !matches!(&*ifx.cond, syn::Expr::Let(_)) && Self::then_block_returns(&ifx.then_branch) {
+						let c = self.eval(&ifx.cond)?;
+						let cv = match &c {
+							V::Ref(cc) => self.read(cc),
+							o => o.clone(),
+						};
+						if let V::SBool(t) = cv {
+							let rest = &stmts[i + 1..];
+							let nt = self.tm.not(t);
+							let key = ifx as *const syn::ExprIf as usize + 1;
+							let merged = self.spec_unit(key, &mut |s2: &mut Self| {
+								let v1 = match s2.speculate_w(t, &mut |s3: &mut Self| match s3.eval_block(&ifx.then_branch) {
+									Err(Ctl::Return(v)) => Ok(v.0),
+									Ok(_) => Err(Ctl::Impure("then-branch fell through".into())),
+									Err(e) => Err(e),
+								}) {
+									Err(Ctl::Infeasible) => None,
+									r => Some(r?),
+								};
+								let v2 = match s2.speculate_w(nt, &mut |s3: &mut Self| match s3.eval_stmts_ex(rest, true) {
+									Err(Ctl::Return(v)) => Ok(v.0),
+									o => o,
+								}) {
+									Err(Ctl::Infeasible) => None,
+									r => Some(r?),
+								};
+								match (v1, v2) {
+									(Some((a, wa)), Some((b, wb))) => {
+										let v = s2.merge(t, a, b)?;
+										s2.apply_merged_writes(t, wa, wb)?;
+										Ok(v)
+									}
+									(Some((a, wa)), None) => {
+										for (cell, val) in wa {
+											s2.write(&cell, val)?;
+										}
+										Ok(a)
+									}
+									(None, Some((b, wb))) => {
+										for (cell, val) in wb {
+											s2.write(&cell, val)?;
+										}
+										Ok(b)
+									}
+									(None, None) => Err(Ctl::Infeasible),
+								}
+							})?;
+							if let Some(v) = merged {
+								return Ok(v);
+							}
+							// not mergeable: ordinary semantics on the already evaluated condition
+							self.eval_if_cond(ifx, V::SBool(t), None)?;
+							continue;
+						} else {
+							self.eval_if_cond(ifx, cv, None)?;
+							continue;
+						}
+					}
+				}
+			}
 			match s {
 				syn::Stmt::Local(l) => {
 					if !self.attrs_ok(&l.attrs) {
@@ -738,6 +820,10 @@ impl<'p> Interp<'p> {
 			};
 		}
 		let c = self.eval(&i.cond)?;
+		self.eval_if_cond(i, c, hint)
+	}
+
+	fn eval_if_cond(&mut self, i: &syn::ExprIf, c: V, hint: Option<&syn::Type>) -> R<V> {
 		let c = match c {
 			V::Ref(cc) => self.read(&cc),
 			o => o,
